@@ -187,6 +187,8 @@ def run(tier):
         report.notes.append("model leg not built yet")
     else:
         c01_models.run(tier, report)
+    from checks import c01_extra
+    c01_extra.run(report)
     return report
 
 
@@ -204,6 +206,9 @@ def replay(case):
     if case.get("kind") == "timedelta":
         return next(iter(td_shard((case["us"], case["us"] + 1, [case["days"]], [case["seconds"]])).violations.values()),
                     {"what": None})["what"]
+    if case.get("kind") == "extra":
+        from checks import c01_extra
+        return c01_extra.replay(case)
     if case.get("kind") != "types":
         from checks import c01_models
         return c01_models.replay(case)
